@@ -142,6 +142,39 @@ ToBasic(c) == [c EXCEPT !.gates = Flatten([i \in 1..Len(c.gates) |-> BasicOf(c.g
 Concat(c1, c2) == [n |-> c1.n, gates |-> c1.gates \o c2.gates]
 BasicKinds == {"HAD", "ZPhase", "Z", "S", "Sdg", "T", "Tdg", "CZ", "CNOT", "SWAP", "NOT", "XPhase", "XCX"}
 
+\* ---------- the rest of the public surface of circuit.rs (C15) ----------
+\* push_front: the circuit with one gate put before all others
+CPushFront(c, g) == [c EXCEPT !.gates = <<g>> \o c.gates]
+CPushBack(c, g) == [c EXCEPT !.gates = Append(c.gates, g)]
+\* num_gates_of_type
+KindCount(c, t) == Cardinality({i \in 1..Len(c.gates) : c.gates[i].t = t})
+\* CircuitStats::into_array: the seven fields in declaration order
+StatsArr(s) == <<s.qubits, s.total, s.oneq, s.twoq, s.moreq, s.cliff, s.non_cliff>>
+\* Concatenation is only defined for operands on the same qubits (circuit.rs: "Cannot append circuits with different
+\* numbers of qubits"): for mismatched operands there is no composite map, a returned circuit denotes nothing
+Concatenable(c1, c2) == c1.n = c2.n
+
+\* ---------- a CNOT / SWAP circuit as an F2 matrix (impl RowOps for Circuit) ----------
+\* The impl's documentation (`c|b> = |m b>` after replaying a Gauss elimination of m^-1 ...) holds on X-basis states: there
+\* CNOT(control r1, target r0) adds bit r0 INTO bit r1.  XConj(c) is c between two layers of Hadamards; its tensor is the
+\* 0/1 matrix of that F2-linear map.
+HLayer(n) == [i \in 1..n |-> Gate("HAD", <<i - 1>>, 0)]
+XConj(c) == [c EXCEPT !.gates = HLayer(c.n) \o c.gates \o HLayer(c.n)]
+F2Cat(x, y, n) == [i \in 1..(2 * n) |-> IF i <= n THEN x[i] ELSE y[i - n]]
+IsF2Map(T, n) == \A x \in BIdx(n) : Cardinality({y \in BIdx(n) : T[F2Cat(x, y, n)] # RZero}) = 1
+OutOf(T, n, x) == CHOOSE y \in BIdx(n) : T[F2Cat(x, y, n)] # RZero
+\* M: sequence of rows, each a sequence of bits
+MatVecF2(M, x) == [i \in 1..Len(M) |-> SumBits([j \in 1..Len(x) |-> M[i][j] * x[j]]) % 2]
+\* `out` is `base` after one row operation whose matrix (the operation applied to the identity) is M:
+\* the map of out is M times the map of base
+RowOpMirrors(base, out, M) ==
+  LET n == base.n
+      Tb == CircSem(XConj(base))
+      To == CircSem(XConj(out))
+  IN /\ out.n = n /\ Len(M) = n
+     /\ IsF2Map(Tb, n) /\ IsF2Map(To, n)
+     /\ \A x \in BIdx(n) : OutOf(To, n, x) = MatVecF2(M, OutOf(Tb, n, x))
+
 \* ---------- conversion from the harness's JSON ----------
 GateFromAbs(j) == [t |-> j.t, qs |-> j.qs, ph |-> PhU(j.ph), vars |-> ParFromAbs(j.vars, FALSE)]
 CircFromAbs(j) == [n |-> j.n, gates |-> [i \in 1..Len(j.gates) |-> GateFromAbs(j.gates[i])]]
